@@ -136,7 +136,7 @@ def _session_writes(ctx, res):
         ver = {}
         for (op, obs) in w.trace:
             t = op.split()
-            if t[0] == 'connect':
+            if t[0] == 'connect' and any(o.startswith('ret pending') for o in obs):
                 ver[int(t[1])] = t[4]
             for o in obs:
                 if o.startswith('w '):
